@@ -55,10 +55,10 @@ PLANS["C01"] = {
     "legs": {
         "quick": [leg("rel", 16, "small"), leg("dbg", 16, "small", scale=1), leg("rel", 8, "boundary"), leg("dbg", 8, "boundary"),
                   leg("rel-nobmi", 8, "boundary"), leg("rel", 4, "regime", weight=5), leg("rel-nobmi", 4, "regime", weight=5),
-                  leg("dbg", 4, "regime", weight=5)],
+                  leg("dbg", 4, "regime", weight=5), leg("miri", 4, "small", of=4096, budget=2500), leg("miri-native", 2, "small", of=4096, budget=2500)],
         "thorough": [leg("rel", 16, "small"), leg("dbg", 16, "small"), leg("rel-nobmi", 16, "small"), leg("rel", 16, "boundary"), leg("dbg", 16, "boundary"),
                      leg("rel-nobmi", 16, "boundary"), leg("rel", 10, "regime", weight=5), leg("rel-nobmi", 10, "regime", weight=5),
-                     leg("dbg", 10, "regime", weight=5)],
+                     leg("dbg", 10, "regime", weight=5), leg("miri", 10, "small", of=2048, budget=20000), leg("miri-native", 6, "small", of=2048, budget=20000)],
     },
     "require": {
         "quick": [("counter", "identity.sel_build_long", 1), ("counter", "identity.sel_build_short", 1),
